@@ -38,6 +38,7 @@ def strategy(tier):
         "lone": st.sampled_from([False, False, True]),
         "prefix": st.sampled_from([None, None, "pfx"]),
         "ext": st.booleans(),
+        "strip": st.sampled_from(["", "^_", "^_"]),
         "history": st.lists(step, min_size=2, max_size=5),
     })
 
@@ -84,6 +85,9 @@ def evaluate(case):
         cfg = sb.path("settings.yaml")
         with open(cfg, "w") as f:
             f.write("rst:\n  file_extensions_in_titles: %s\n" % ("true" if case["ext"] else "false"))
+            if case.get("strip"):
+                f.write("input:\n  function_parameter_name_strip_regex: %r\n  macro_parameter_name_strip_regex: %r\n"
+                        % (case["strip"], case["strip"]))
         lone = case["lone"]
         target_rel = top_files[0] if lone else ""
 
